@@ -157,6 +157,7 @@ func ruleCollectBound(c *Ctx) {
 		endV       ssa.Value
 		endStore   *ssa.Store
 		stateAtEnd int
+		at         *ssa.Call // for a piece built by a helper closure: the call
 	}
 	var pieces []*piece
 	eachInstr(fn, func(x ssa.Instruction) {
@@ -194,6 +195,57 @@ func ruleCollectBound(c *Ctx) {
 			pieces = append(pieces, pc)
 		}
 	})
+	// pieces built by a helper closure whose End is the closure's parameter: one piece per call of the closure, with
+	// the argument as End (the closure's own guard compares that parameter with the start: FLUSH-GUARD holds by shape)
+	for _, g := range fn.AnonFuncs {
+		eachInstr(g, func(x ssa.Instruction) {
+			al, ok := x.(*ssa.Alloc)
+			if !ok || typeName(deref(al.Type())) != "Inline" {
+				return
+			}
+			for _, r := range refsOf(al) {
+				fa, ok := r.(*ssa.FieldAddr)
+				if !ok {
+					continue
+				}
+				if tn, f, _ := fieldAddrInfo(fa); tn != "Inline" || f != "span" {
+					continue
+				}
+				for _, r2 := range refsOf(fa) {
+					fa2, ok := r2.(*ssa.FieldAddr)
+					if !ok {
+						continue
+					}
+					if _, f2, _ := fieldAddrInfo(fa2); f2 != "End" {
+						continue
+					}
+					for _, r3 := range refsOf(fa2) {
+						st, ok := r3.(*ssa.Store)
+						if !ok || st.Addr != ssa.Value(fa2) {
+							continue
+						}
+						prm, ok := st.Val.(*ssa.Parameter)
+						if !ok {
+							continue
+						}
+						pi := -1
+						for i, q := range g.Params {
+							if q == prm {
+								pi = i
+							}
+						}
+						eachInstr(fn, func(y ssa.Instruction) {
+							call, ok := y.(*ssa.Call)
+							if !ok || call.Call.StaticCallee() != g || pi < 0 || pi >= len(call.Call.Args) {
+								return
+							}
+							pieces = append(pieces, &piece{al: nil, startV: nil, endV: call.Call.Args[pi], endStore: nil, stateAtEnd: -1, at: call})
+						})
+					}
+				}
+			}
+		})
+	}
 	// the state at the load of the reader field the End is computed from
 	stateAt := func(at ssa.Instruction) int {
 		b := at.Block()
@@ -223,14 +275,40 @@ func ruleCollectBound(c *Ctx) {
 		n++
 		ldInstr, _ := base.(ssa.Instruction)
 		s := stateAt(ldInstr)
+		pos := token.NoPos
+		if pc.endStore != nil {
+			pos = pc.endStore.Pos()
+		} else if pc.at != nil {
+			pos = pc.at.Pos()
+		}
 		allowed := 0
 		if field == "prevPos" {
 			allowed = 1
 		}
 		key := fmt.Sprintf("collectTextNodes:piece#%d(End=r.%s%+d)", n, field, k)
-		c.Check(s == exhausted || (s >= 0 && s <= allowed), "COLLECT-BOUND", key, pc.endStore.Pos(), fmt.Sprintf("advances of the reader since r.pos < end was last established: %d (2 = two or more); at most %d allowed for an End taken from r.%s", s, allowed, field))
+		// a piece flushed because the reader jumped to the next line ends with the byte before the jump: prevPos+1
+		atBlock := (*ssa.BasicBlock)(nil)
+		if pc.al != nil {
+			atBlock = pc.al.Block()
+		} else if pc.at != nil {
+			atBlock = pc.at.Block()
+		}
+		if atBlock != nil {
+			for id := atBlock.Idom(); id != nil; id = id.Idom() {
+				iff := blockIf(id)
+				if iff == nil {
+					continue
+				}
+				if jc, ok := iff.Cond.(*ssa.Call); ok {
+					if g := jc.Call.StaticCallee(); g != nil && g.Name() == "jumped" && edgeDominates(id, 0, atBlock) {
+						c.Check(field == "prevPos" && k == 1, "COLLECT-BOUND", key+":after-jump", pos, fmt.Sprintf("after a jump the bytes up to and including r.prevPos belong to the pending piece; its End is r.%s%+d", field, k))
+					}
+				}
+			}
+		}
+		c.Check(s == exhausted || (s >= 0 && s <= allowed), "COLLECT-BOUND", key, pos, fmt.Sprintf("advances of the reader since r.pos < end was last established: %d (2 = two or more); at most %d allowed for an End taken from r.%s", s, allowed, field))
 		// FLUSH-GUARD: the nearest dominating If comparing a reader position with the piece's Start
-		if pc.startV == nil {
+		if pc.startV == nil || pc.al == nil {
 			continue
 		}
 		for id := pc.al.Block().Idom(); id != nil; id = id.Idom() {
